@@ -280,8 +280,8 @@ theorem C16_angle_norm (τ : Rat) (hτ : 0 < τ) (s e : Rat) (hse : s ≤ e) (hl
   have hfc : (f : Rat) = (fuelFor τ s : Rat) + (fuelFor τ e : Rat) := by rw [hf]; push_cast; ring
   have hn1 : (0 : Rat) ≤ (fuelFor τ s : Rat) * τ := by positivity
   have hn2 : (0 : Rat) ≤ (fuelFor τ e : Rat) * τ := by positivity
-  obtain ⟨m, hm, hm1, hm2, hm3⟩ := downLoop2_spec τ hτ f s e
-    (by rw [hfc]; nlinarith [hfs.1]) (by rw [hfc]; nlinarith [hfe.1])
+  obtain ⟨m, hm, hm1, hm2, hm3⟩ := downLoop2_spec τ hτ (f + f) s e
+    (by push_cast; rw [hfc]; nlinarith [hfs.1]) (by push_cast; rw [hfc]; nlinarith [hfe.1])
   simp only [hm]
   -- how far down did the first loop go?  not below -(f+1)τ … we only need a bound for the fuel
   have hmle : (m : Rat) * τ ≤ (f : Rat) * τ + τ ∨ m = 0 := by
